@@ -5,6 +5,7 @@ import (
 	"go/constant"
 	"go/token"
 	"go/types"
+	"strings"
 
 	"golang.org/x/tools/go/ssa"
 )
@@ -187,6 +188,7 @@ func checkC08(p *Prog, res *Result, tier string) {
 	res.rule("C08-R1", "every storage write to the compaction-record key is PutIfNotExist, or a CAS expecting the value just read and dominated by the guard 'stored <= new'", 4)
 	res.rule("C08-R2", "every call path from Scanner.Range/Count/RangeStream to an engine iterator passes the floor check with compact=false, and its error returns first", 3)
 	res.rule("C08-R3", "the engine timestamp handed to the scan workers is obtained before the floor check", 2)
+	res.rule("C08-R5", "the engines evaluate the CAS on the compaction record atomically with the write (C11-R1/R2): otherwise an overlapping older compaction lowers the floor", 6)
 	res.rule("C08-R4", "the floor check returns an error on the true branch of 'stored > requested' and returns nil only if the record is absent or not larger", 2)
 
 	// ---- R1 ----
@@ -240,6 +242,18 @@ func checkC08(p *Prog, res *Result, tier string) {
 
 	// ---- R2 / R3 ----
 	checkRangeReadsGuarded(p, r, ck, res)
+	// ---- R5: engines evaluate conditions atomically (C11-R1/R2) ----
+	{
+		sub11 := newResult("C11")
+		checkC11(p, sub11, tier)
+		for _, o := range sub11.Obls {
+			if (o.Rule == "C11-R1" && (strings.Contains(o.Construct, "CAS") || strings.Contains(o.Construct, "PutIfNotExist"))) ||
+				(o.Rule == "C11-R2" && (strings.Contains(o.Construct, "Commit:") || strings.Contains(o.Construct, "memkv:"))) {
+				res.add("C08-R5", o.Rule+" "+o.Construct, o.Status, o.Pos, o.Detail)
+			}
+		}
+	}
+
 }
 
 // casIsMonotone: oldVal is the value read by a dominating Get of the record in the same function; newVal encodes
